@@ -456,6 +456,22 @@ impl<Front: SocketHandler, L: ListenerHandler> Pipe<Front, L> {
         );
     }
 
+    /// Pass the client's end-of-stream on to the backend: once the client has
+    /// half-closed and every byte it sent has been written to the backend,
+    /// shut down the write side of the backend socket (a FIN, the read side
+    /// stays open for the answer). Idempotent; errors are ignored (the socket
+    /// may already be gone, which the next read reports).
+    fn propagate_frontend_eof(&mut self) {
+        if matches!(self.frontend_status, ConnectionStatus::WriteOpen)
+            && self.frontend_buffer.available_data() == 0
+            && self.splice_in_pending() == 0
+        {
+            if let Some(backend) = self.backend_socket.as_ref() {
+                let _ = backend.shutdown(std::net::Shutdown::Write);
+            }
+        }
+    }
+
     /// Wether the session should be kept open, depending on endpoints status
     /// and buffer usage (both in memory and in kernel)
     pub fn check_connections(&self) -> bool {
@@ -493,11 +509,12 @@ impl<Front: SocketHandler, L: ListenerHandler> Pipe<Front, L> {
             }
             (ConnectionStatus::Normal, ConnectionStatus::Closed) => response_is_inflight,
 
-            (ConnectionStatus::WriteOpen, ConnectionStatus::Normal) => {
-                // technically we should keep it open, but we'll assume that if the back
-                // is not readable and there is no in flight data back -> front or front -> back, we'll close the session
-                request_is_inflight || response_is_inflight
-            }
+            // The client has half-closed (request then FIN, `printf ... | nc`):
+            // its end-of-stream is passed on to the backend with a write-side
+            // shutdown once its bytes are out (`propagate_frontend_eof`), and the
+            // session lives until the backend ends its own stream — closing
+            // here cut the answer the client is waiting for.
+            (ConnectionStatus::WriteOpen, ConnectionStatus::Normal) => true,
             (ConnectionStatus::WriteOpen, ConnectionStatus::ReadOpen) => true,
             (ConnectionStatus::WriteOpen, ConnectionStatus::WriteOpen) => {
                 request_is_inflight || response_is_inflight
@@ -667,6 +684,7 @@ impl<Front: SocketHandler, L: ListenerHandler> Pipe<Front, L> {
                     self.log_request_success(metrics);
                     return SessionResult::Close;
                 }
+                self.propagate_frontend_eof();
             }
             SocketResult::WouldBlock => {
                 self.frontend_readiness.event.remove(Ready::READABLE);
@@ -812,6 +830,7 @@ impl<Front: SocketHandler, L: ListenerHandler> Pipe<Front, L> {
                         self.log_request_success(metrics);
                         return SessionResult::Close;
                     }
+                    self.propagate_frontend_eof();
                     return SessionResult::Continue;
                 }
 
@@ -1398,7 +1417,15 @@ impl<Front: SocketHandler, L: ListenerHandler> SessionState for Pipe<Front, L> {
         let mut counter = 0;
 
         if self.frontend_readiness.event.is_hup() {
-            return SessionResult::Close;
+            // same rule as `frontend_hup` (TCP sessions): a client that half-closes
+            // after its last bytes is reported as READABLE | HUP at once; read and
+            // forward what it sent before the session goes away
+            let request_pending = self.frontend_buffer.available_data() > 0
+                || self.frontend_readiness.event.is_readable();
+            if !(request_pending && self.backend_socket.is_some()) {
+                return SessionResult::Close;
+            }
+            self.frontend_readiness.event.remove(Ready::HUP);
         }
 
         while counter < MAX_LOOP_ITERATIONS {
